@@ -24,6 +24,11 @@ type SharedCase struct {
 	Bits2  int      `json:"bits2"`
 	Cons   string   `json:"cons"` // consumer: + ^ <
 	Define bool     `json:"define"`
+	// Helper: the constant reaches its consumer through a helper with an
+	// unsized parameter, `func h(x uint) uint { return x <Helper> x }`,
+	// which is instantiated once per call: the same expression is folded
+	// with two constants of equal value and different width.
+	Helper string `json:"helper,omitempty"`
 	Z      []string `json:"z"`
 	W      []string `json:"w"`
 }
@@ -37,6 +42,14 @@ func (cs SharedCase) sources() (pconst, prun string) {
 		r1, r2 = "bool", "bool"
 	}
 	c1, c2 := spellAs(cs.V, t1), spellAs(cs.V, t2)
+	if cs.Helper != "" {
+		h := fmt.Sprintf("func h(x %s) %s {\n\treturn x %s x\n}\n", cs.Kind1, cs.Kind1, cs.Helper)
+		pconst = fmt.Sprintf("package main\n%sfunc main(z %s, w %s) (%s, %s) {\n\treturn h(%s) %s z, h(%s) %s w\n}\n",
+			h, t1, t2, r1, r2, c1, cs.Cons, c2, cs.Cons)
+		prun = fmt.Sprintf("package main\n%sfunc main(x1 %s, x2 %s, z %s, w %s) (%s, %s) {\n\treturn h(x1) %s z, h(x2) %s w\n}\n",
+			h, t1, t2, t1, t2, r1, r2, cs.Cons, cs.Cons)
+		return
+	}
 	if cs.Define {
 		pconst = fmt.Sprintf("package main\nfunc main(z %s, w %s) (%s, %s) {\n\ta := %s\n\tb := %s\n\treturn a %s z, b %s w\n}\n",
 			t1, t2, r1, r2, c1, c2, cs.Cons, cs.Cons)
@@ -76,6 +89,12 @@ func runShared(cs SharedCase) ev.Outcome {
 	if pc.panic != "" {
 		return ev.Fail("foldpanic/"+panicSite(pc.panic)+"/shared", "compiler panics: %s\n%s", pc.panic, pconst)
 	}
+	if cs.Helper != "" {
+		if cs.Kind1 != "uint" || cs.Kind2 != "uint" {
+			return ev.Outcome{Skip: "the helper form is generated for unsigned types"}
+		}
+		sig += "/helper"
+	}
 	classes := []string{"cons=" + consName(cs.Cons),
 		"widths=" + widthClass(cs.Bits1) + "," + widthClass(cs.Bits2),
 		"sign=" + coarseSign(cs.V, cs.Kind1, cs.Bits1)}
@@ -108,6 +127,20 @@ func runShared(cs SharedCase) ev.Outcome {
 	out.Evals = evals
 	out.Sample = map[string]interface{}{"case": cs, "p_const": pconst}
 	return out
+}
+
+// helperValue is v <op> v in uintN arithmetic.
+func helperValue(op string, v *big.Int, bits int) *big.Int {
+	r := new(big.Int)
+	switch op {
+	case "*":
+		r.Mul(v, v)
+	case "+":
+		r.Add(v, v)
+	case "&", "|":
+		r.Set(v)
+	}
+	return pattern(r, bits)
 }
 
 func consName(c string) string {
@@ -156,6 +189,24 @@ func genShared(t *rapid.T) SharedCase {
 		cs.W = append(cs.W, wrap(drawBits(t, cs.Bits2, "w"), cs.Kind2, cs.Bits2).String())
 	}
 	cs.Z[0], cs.W[0] = "0", "0"
+	if cs.Kind1 == "uint" && cs.Kind2 == "uint" && cs.Bits1 != cs.Bits2 && rapid.IntRange(0, 1).Draw(t, "helper") == 0 {
+		cs.Helper = rapid.SampledFrom([]string{"*", "*", "*", "+", "+", "&", "|", "^", "-"}).Draw(t, "helperop")
+		if rapid.Bool().Draw(t, "helpercmp") {
+			// Additive consumers of a wrongly typed result are
+			// rejected by the compiler; a comparison shows its value.
+			cs.Cons = "<"
+		}
+		// Consumer operands around the helper's result at either width,
+		// so that a comparison tells the two apart.
+		for _, bits := range []int{cs.Bits1, cs.Bits2} {
+			r := helperValue(cs.Helper, v, bits)
+			for d := int64(0); d <= 1; d++ {
+				x := new(big.Int).Add(r, big.NewInt(d))
+				cs.Z = append(cs.Z, pattern(x, cs.Bits1).String())
+				cs.W = append(cs.W, pattern(x, cs.Bits2).String())
+			}
+		}
+	}
 	return cs
 }
 
